@@ -1,3 +1,434 @@
-"""R-CONST / R-XCONST: value-level relations between compile-time constants."""
+"""R-CONST / R-XCONST: value-level relations between compile-time constants.
+Constants are located by *role* (template argument of the field type, argument of a resolved call inside a
+named function, table indexed inside a named function), never by the spelling of the constant's own name.
+Oracle: jpv/bls.py (Python big-int arithmetic derived from the curve parameter x)."""
+from . import bls
+from .facts import walk, loc_str, strip
+from . import buildmodel as bm
+
+NS = 'embedded_pairing::bls12_381::'
+
+
+# ---------------- value decoding ----------------
+def decode(v):
+    """APValue JSON -> python: ints, dicts (structs, bases merged), lists; BigInt-style unions -> int."""
+    if v is None:
+        return None
+    if 'i' in v:
+        return int(v['i'], 16)
+    if 'array' in v:
+        return [decode(x) for x in v['array']]
+    if 'union' in v:
+        if v.get('member') is None:
+            return None
+        inner = v['v']
+        if 'array' in inner and all('i' in x for x in inner['array']):
+            bits = inner['array'][0]['bits'] if inner['array'] else 0
+            n = 0
+            for i, x in enumerate(inner['array']):
+                n |= (int(x['i'], 16) & ((1 << bits) - 1)) << (bits * i)
+            return n
+        return decode(inner)
+    if 'struct' in v:
+        d = {}
+        for b in v.get('bases', []):
+            bd = decode(b)
+            if isinstance(bd, dict):
+                d.update(bd)
+        for f in v.get('fields', []):
+            d[f['n']] = decode(f['v'])
+        return d
+    if 'lvalue' in v:
+        return ('lvalue', v['lvalue'], v.get('offset', 0))
+    return ('unsupported', v)
+
+
+def as_int(x):
+    while isinstance(x, dict) and len(x) == 1:
+        x = list(x.values())[0]
+    return x
+
+
+class ConstModel:
+    def __init__(self, ctx, cfg, prog):
+        self.ctx, self.cfg, self.prog = ctx, cfg, prog
+        self.word_bits = bm.configs()[cfg]['words']
+
+    def g(self, gid):
+        g = self.prog.globals.get(gid)
+        self.ctx.require(g is not None, 'constant %s not found in %s' % (gid, self.cfg))
+        return g
+
+    def val(self, gid):
+        g = self.g(gid)
+        self.ctx.require('value' in g, 'constant %s has no compile-time value in %s' % (gid, self.cfg))
+        return decode(g['value'])
+
+    def ival(self, gid):
+        v = as_int(self.val(gid))
+        self.ctx.require(isinstance(v, int), 'constant %s is not an integer-like value' % gid)
+        return v
+
+    def fn(self, qn):
+        fs = self.prog.fn_by_qn(qn)
+        self.ctx.require(len(fs) >= 1, 'anchor function %s not found (with body) in %s' % (qn, self.cfg))
+        return fs[0]
+
+    def field_params(self, field):
+        """(bits, modulus gid, R gid, R2 gid, inv gid) from the Fp<> base of a field type."""
+        rec = self.prog.records.get(field)
+        self.ctx.require(rec is not None and rec['bases'], 'field type %s not found' % field)
+        base = self.prog.records.get(rec['bases'][0]['rec'])
+        self.ctx.require(base is not None and base.get('targs') and len(base['targs']) == 5,
+                         'field type %s does not derive from Fp<bits,p,r,r2,inv>' % field)
+        ta = base['targs']
+        return int(ta[0]), ta[1], ta[2], ta[3], ta[4]
+
+    def call_arg_globals(self, fn, callee_name, argidx):
+        """global ids passed as argument #argidx of calls to a callee with unqualified name callee_name in fn"""
+        out = []
+        for n in walk(fn['body']):
+            if n.get('k') == 'call' and n.get('name') == callee_name and len(n.get('args', [])) > argidx:
+                a = n['args'][argidx]
+                for m in walk(a):
+                    if m.get('k') == 'ref' and m.get('rk') == 'global':
+                        out.append((m['g'], n))
+                        break
+        return out
+
+    def indexed_tables(self, fn):
+        """(global id, index expr node, subscript node) for every subscript of a global array in fn"""
+        out = []
+        for n in walk(fn['body']):
+            if n.get('k') == 'index':
+                b = strip(n['base'])
+                while b.get('k') == 'cast':
+                    b = strip(b['e'])
+                if b.get('k') == 'ref' and b.get('rk') == 'global':
+                    out.append((b['g'], n['idx'], n))
+        return out
+
+    def ob(self, rule, ok, key, what, site='', detail=None, sample=None):
+        self.ctx.ob(rule, ok, key, site or key, what, cfg=self.cfg, detail=detail,
+                    sample=sample if sample is not None else dict(config=self.cfg, relation=key))
+
+
+def mont_decode(v, p, bits):
+    return (v * bls.inv(pow(2, bits, p), p)) % p
+
+
+def fq2_dec(d, bits=384):
+    return (mont_decode(as_int(d['c0']), bls.Q, bits), mont_decode(as_int(d['c1']), bls.Q, bits))
+
+
+# ---------------- C02 ----------------
+def rule_field_constants(ctx, cfg, prog):
+    m = ConstModel(ctx, cfg, prog)
+    n = 0
+    for fname, expect_p, label in ((NS + 'Fq', bls.Q, 'q'), (NS + 'Fr', bls.R_ORDER, 'r')):
+        bits, gp, gr, gr2, ginv = m.field_params(fname)
+        p = m.ival(gp)
+        site = loc_str(m.g(gp))
+        m.ob('R-CONST', p == expect_p, 'modulus|' + label,
+             '%s modulus (template argument %s) = %#x differs from the BLS12-381 %s derived from x' % (fname, gp, p, label), site)
+        p = expect_p
+        R = m.ival(gr)
+        m.ob('R-CONST', R == pow(2, bits, p), 'montR|' + label, '%s: R (%s) != 2^%d mod %s' % (fname, gr, bits, label), loc_str(m.g(gr)))
+        R2 = m.ival(gr2)
+        m.ob('R-CONST', R2 == pow(2, 2 * bits, p), 'montR2|' + label, '%s: R2 (%s) != R^2 mod %s' % (fname, gr2, label), loc_str(m.g(gr2)))
+        iv = m.ival(ginv)
+        W = m.word_bits
+        want = (-bls.inv(p, 1 << W)) % (1 << W)
+        m.ob('R-CONST', (iv & ((1 << W) - 1)) == want, 'montInvWord|' + label,
+             '%s: used word of inv (%s mod 2^%d = %#x) != -%s^-1 mod 2^%d = %#x' % (fname, ginv, W, iv & ((1 << W) - 1), label, W, want),
+             loc_str(m.g(ginv)))
+        # zero / one members
+        one = as_int(m.val(fname + '::one'))
+        zero = as_int(m.val(fname + '::zero'))
+        m.ob('R-CONST', one == pow(2, bits, p), 'one|' + label, '%s::one is not R (Montgomery 1)' % fname, loc_str(m.g(fname + '::one')))
+        m.ob('R-CONST', zero == 0, 'zero|' + label, '%s::zero is not 0' % fname, loc_str(m.g(fname + '::zero')))
+        n += 6
+        # top-byte masks and one-subtraction sufficiency
+        bl = p.bit_length()
+        mask = (1 << (bl % 8)) - 1 if bl % 8 else 0xff
+        nm = 0
+        for meth in ('random', 'hash_reduce', 'read_big_endian'):
+            fs = prog.fn_by_qn(fname + '::' + meth)
+            if not fs:
+                continue
+            for nnode in walk(fs[0]['body']):
+                if nnode.get('k') == 'assign' and nnode.get('op') == '&=' and 'cv' in (nnode.get('rhs') or {}):
+                    lt = (nnode['lhs'].get('t') or {})
+                    if lt.get('size') != 1:
+                        continue
+                    nm += 1
+                    got = int(nnode['rhs']['cv']) & 0xff
+                    m.ob('R-CONST', got == mask, 'mask|%s|%s' % (label, meth),
+                         '%s::%s masks the top byte with %#x, expected %#x = 2^(bitlen(%s) mod 8)-1' % (fname, meth, got, mask, label),
+                         loc_str(nnode))
+        ctx.require(nm >= 2, 'no top-byte mask found in %s::random/hash_reduce' % fname)
+        m.ob('R-CONST', (1 << bl) <= 2 * p, 'onesub|' + label, '2^bitlen(%s) > 2%s: one conditional subtraction does not suffice' % (label, label))
+        n += nm + 1
+    # Fq::negative_one
+    neg1 = as_int(m.val(NS + 'Fq::negative_one'))
+    m.ob('R-CONST', neg1 == (bls.Q - pow(2, 384, bls.Q)) % bls.Q, 'negone|q', 'Fq::negative_one != q - R', loc_str(m.g(NS + 'Fq::negative_one')))
+    # Fq::square_root exponent
+    f = m.fn(NS + 'Fq::square_root')
+    gl = m.call_arg_globals(f, 'exponentiate', 2)
+    ctx.require(len(gl) == 1, 'Fq::square_root: expected one exponentiate call with a constant exponent')
+    e = m.ival(gl[0][0])
+    m.ob('R-CONST', e == (bls.Q + 1) // 4, 'sqrtexp|q', 'Fq::square_root exponent %s != (q+1)/4' % gl[0][0], loc_str(gl[0][1]))
+    # Fr::square_root (Tonelli-Shanks) constants
+    f = m.fn(NS + 'Fr::square_root')
+    s = 0
+    t = bls.R_ORDER - 1
+    while t % 2 == 0:
+        t //= 2
+        s += 1
+    gl = m.call_arg_globals(f, 'exponentiate', 2)
+    ctx.require(len(gl) == 2, 'Fr::square_root: expected two exponentiate calls with constant exponents')
+    vals = sorted(m.ival(g_) for g_, _ in gl)
+    m.ob('R-CONST', vals == sorted([t, (t + 1) // 2]), 'tonelli-exps|r',
+         'Fr::square_root exponents are not {t, (t+1)/2} with r-1 = t*2^%d' % s, loc_str(gl[0][1]))
+    # root of unity: the global used in the initializer of the local of Fr type; m = literal s
+    roots = []
+    mlits = []
+    for nnode in walk(f['body']):
+        if nnode.get('k') == 'decl':
+            for v in nnode['vars']:
+                if v.get('init') is None:
+                    continue
+                tt = v['t']
+                if tt.get('k') == 'record' and tt['rec'] == NS + 'Fr':
+                    for x in walk(v['init']):
+                        if x.get('k') == 'ref' and x.get('rk') == 'global':
+                            roots.append((x['g'], nnode))
+                if tt.get('k') == 'int' and 'cv' in (v['init'] or {}) and v['name'] == 'm':
+                    mlits.append((int(v['init']['cv']), nnode))
+    ctx.require(len(roots) == 1, 'Fr::square_root: root-of-unity initializer not found')
+    c = mont_decode(m.ival(roots[0][0]), bls.R_ORDER, 256)
+    ok = pow(c, 1 << s, bls.R_ORDER) == 1 and pow(c, 1 << (s - 1), bls.R_ORDER) != 1
+    m.ob('R-CONST', ok, 'tonelli-root|r', 'Fr::square_root: %s is not a primitive 2^%d-th root of unity (Montgomery form)' % (roots[0][0], s),
+         loc_str(roots[0][1]))
+    if mlits:
+        m.ob('R-CONST', mlits[0][0] == s, 'tonelli-s|r', 'Fr::square_root: m = %d but the 2-adicity of r-1 is %d' % (mlits[0][0], s), loc_str(mlits[0][1]))
+    else:
+        ctx.require(False, 'Fr::square_root: initial m not found')
+    return n + 5
+
+
+# ---------------- C04 ----------------
+def rule_tower_constants(ctx, cfg, prog):
+    m = ConstModel(ctx, cfg, prog)
+    q = bls.Q
+    specs = [
+        (NS + 'Fq2::frobenius_map', 2, lambda i: (pow(q - 1, i, q) if False else pow(-1 % q, ((q ** i - 1) // 2), q)), 'fq'),
+        (NS + 'Fq6::frobenius_map', 6, None, 'fq2x2'),
+        (NS + 'Fq12::frobenius_map', 12, lambda i: bls.f2_pow(bls.XI, (q ** i - 1) // 6), 'fq2'),
+    ]
+    total = 0
+    for fqn, modulus, fnexp, kind in specs:
+        f = m.fn(fqn)
+        tabs = m.indexed_tables(f)
+        ctx.require(tabs, '%s: no coefficient table subscript found' % fqn)
+        names = []
+        for g_, idx, node in tabs:
+            if g_ not in names:
+                names.append(g_)
+        # R-BOUNDS: the index expression stays inside the table
+        for g_, idx, node in tabs:
+            gg = m.g(g_)
+            extent = gg['t'].get('n')
+            rng = index_range(f, idx)
+            okb = rng is not None and rng[0] >= 0 and rng[1] < extent
+            m.ob('R-BOUNDS', okb, 'bounds|%s|%s' % (fqn.split('::')[-2], g_.split('::')[-1]),
+                 '%s indexes %s (extent %s) with an expression whose range is %s' % (fqn, g_, extent, rng), loc_str(node))
+            total += 1
+        for ti, g_ in enumerate(names):
+            vals = m.val(g_)
+            ctx.require(isinstance(vals, list), '%s is not an array' % g_)
+            for i, v in enumerate(vals):
+                if kind == 'fq':
+                    got = mont_decode(as_int(v), q, 384)
+                    want = pow(q - 1, (q ** i - 1) // 2, q)
+                elif kind == 'fq2':
+                    got = fq2_dec(v)
+                    want = bls.f2_pow(bls.XI, (q ** i - 1) // 6)
+                else:
+                    got = fq2_dec(v)
+                    # c1 table: xi^((q^i-1)/3); c2 table: xi^((2q^i-2)/3).  Which table multiplies c1 / c2 is
+                    # decided from the call: this->c1.multiply(..., T[i]) vs this->c2.multiply(...)
+                    role = table_role(f, g_)
+                    ctx.require(role in ('c1', 'c2'), '%s: cannot tell which coefficient %s scales' % (fqn, g_))
+                    want = bls.f2_pow(bls.XI, ((q ** i - 1) // 3) if role == 'c1' else ((2 * q ** i - 2) // 3))
+                m.ob('R-CONST', got == want, 'frob|%s|%d' % (g_.split('::')[-1], i),
+                     '%s[%d] is not the Frobenius coefficient required by %s' % (g_, i, fqn), loc_str(m.g(g_)))
+                total += 1
+    # Fq2 constants
+    one = m.val(NS + 'Fq2::one')
+    neg1 = m.val(NS + 'Fq2::negative_one')
+    zero = m.val(NS + 'Fq2::zero')
+    m.ob('R-CONST', fq2_dec(one) == (1, 0), 'fq2one', 'Fq2::one != 1')
+    m.ob('R-CONST', fq2_dec(neg1) == (q - 1, 0), 'fq2negone', 'Fq2::negative_one != -1')
+    m.ob('R-CONST', fq2_dec(zero) == (0, 0), 'fq2zero', 'Fq2::zero != 0')
+    for nm, want in ((NS + 'Fq6::one', [(1, 0), (0, 0), (0, 0)]), (NS + 'Fq6::zero', [(0, 0)] * 3)):
+        v = m.val(nm)
+        got = [fq2_dec(v[k]) for k in ('c0', 'c1', 'c2')]
+        m.ob('R-CONST', got == want, nm.split('::', 2)[-1], '%s has the wrong value' % nm)
+    for nm, want in ((NS + 'Fq12::one', 1), (NS + 'Fq12::zero', 0)):
+        v = m.val(nm)
+        got = [fq2_dec(v[a][b]) for a in ('c0', 'c1') for b in ('c0', 'c1', 'c2')]
+        m.ob('R-CONST', got == [(want, 0)] + [(0, 0)] * 5, nm.split('::', 2)[-1], '%s has the wrong value' % nm)
+    # Fq2::square_root exponents
+    f = m.fn(NS + 'Fq2::square_root')
+    gl = m.call_arg_globals(f, 'exponentiate', 2)
+    ctx.require(len(gl) == 2, 'Fq2::square_root: expected two exponentiate calls with constant exponents')
+    vals = [m.ival(g_) for g_, _ in gl]
+    m.ob('R-CONST', vals[0] == (q - 3) // 4, 'fq2sqrt-exp1', 'Fq2::square_root first exponent != (q-3)/4', loc_str(gl[0][1]))
+    m.ob('R-CONST', vals[1] == (q - 1) // 2, 'fq2sqrt-exp2', 'Fq2::square_root second exponent != (q-1)/2', loc_str(gl[1][1]))
+    return total + 9
+
+
+def table_role(fn, gid):
+    """which member of `this` is multiplied by table gid (looks at this->cK.multiply(..., T[...]))"""
+    for n in walk(fn['body']):
+        if n.get('k') == 'call' and n.get('name') == 'multiply':
+            uses = any(x.get('k') == 'ref' and x.get('g') == gid for a in n['args'] for x in walk(a))
+            if uses:
+                th = strip(n.get('this'))
+                if th and th.get('k') == 'member':
+                    return th['name']
+    return None
+
+
+def index_range(fn, idx):
+    """Interval of a small class of index expressions: constants, x & c, x % c, (x < c ? x : x % c), and locals
+    initialised with one of those (single assignment)."""
+    e = strip(idx)
+    if e is None:
+        return None
+    if 'cv' in e:
+        v = int(e['cv'])
+        return (v, v)
+    k = e.get('k')
+    if k == 'bin' and e['op'] == '&' and 'cv' in strip(e['rhs']):
+        return (0, int(strip(e['rhs'])['cv']))
+    if k == 'bin' and e['op'] == '%' and 'cv' in strip(e['rhs']):
+        unsigned = not (strip(e['lhs']).get('t') or {}).get('signed', True)
+        c = int(strip(e['rhs'])['cv'])
+        return (0, c - 1) if unsigned and c > 0 else None
+    if k == 'cond':
+        c = strip(e['c'])
+        a = index_range_cond_true(c, strip(e['then']))
+        b = index_range(fn, e['else'])
+        if a and b:
+            return (min(a[0], b[0]), max(a[1], b[1]))
+        return None
+    if k == 'ref' and e.get('rk') == 'local':
+        inits = []
+        writes = 0
+        for n in walk(fn['body']):
+            if n.get('k') == 'decl':
+                for v in n['vars']:
+                    if v.get('id') == e['id'] and v.get('init') is not None:
+                        inits.append(v['init'])
+            if n.get('k') == 'assign' and strip(n['lhs']).get('k') == 'ref' and strip(n['lhs']).get('id') == e['id']:
+                writes += 1
+            if n.get('k') == 'un' and n.get('op') in ('++', '--') and strip(n['e']).get('id') == e['id'] and strip(n['e']).get('rk') == 'local':
+                writes += 1
+        if len(inits) == 1 and writes == 0:
+            return index_range(fn, inits[0])
+    return None
+
+
+def index_range_cond_true(c, val):
+    """range of `val` when it is the variable tested by `val < CONST` (unsigned)"""
+    if c.get('k') == 'bin' and c['op'] == '<' and 'cv' in strip(c['rhs']):
+        l = strip(c['lhs'])
+        if l.get('k') == 'ref' and val.get('k') == 'ref' and l.get('id') == val.get('id') and l.get('rk') == val.get('rk'):
+            if not (l.get('t') or {}).get('signed', True):
+                return (0, int(strip(c['rhs'])['cv']) - 1)
+    return None
+
+
+# ---------------- C19 exported constants ----------------
 def rule_xconst(ctx, cfg, prog):
-    pass
+    m = ConstModel(ctx, cfg, prog)
+    exported = {g['name']: g for g in prog.globals.values()
+                if g.get('externC') and g['l'][0].startswith('src/') and g.get('is_def')}
+    ctx.floor('exported C constants[%s]' % cfg, len(exported), 14)
+
+    def pointee(name):
+        g = exported.get(name)
+        ctx.require(g is not None, 'exported constant %s not found' % name)
+        v = decode(g.get('value')) if 'value' in g else None
+        ctx.require(isinstance(v, tuple) and v[0] == 'lvalue' and v[2] == 0,
+                    'exported constant %s is not the address of a constant object' % name)
+        tgt = prog.globals.get(v[1])
+        if tgt is None:
+            # qualified name printed without template args etc.
+            cands = [x for x in prog.globals.values() if x['id'].endswith(v[1])]
+            tgt = cands[0] if cands else None
+        ctx.require(tgt is not None and 'value' in tgt, 'target %s of %s has no value' % (v[1], name))
+        return g, tgt, decode(tgt['value'])
+
+    P = 'embedded_pairing_bls12_381_'
+    g, tgt, v = pointee(P + 'group_order')
+    m.ob('R-XCONST', as_int(v) == bls.R_ORDER, 'xconst|group_order', 'exported group_order does not point at r', loc_str(g))
+    # wkdibe / lqibe group_order objects (C++ constants used for subtraction modulo r)
+    for gid, gg in prog.globals.items():
+        if gg['name'] == 'group_order' and 'value' in gg and gid.startswith('embedded_pairing::'):
+            vv = as_int(decode(gg['value']))
+            if isinstance(vv, tuple):
+                continue
+            m.ob('R-XCONST', vv == bls.R_ORDER, 'xconst|' + gid, '%s != r' % gid, loc_str(gg))
+    q = bls.Q
+
+    def fq(x):
+        return mont_decode(as_int(x), q, 384)
+
+    for grp, curve, dec in (('g1', bls.E1, fq), ('g2', bls.E2, fq2_dec)):
+        g, tgt, v = pointee(P + grp + '_zero')
+        z = dec(v['z'])
+        m.ob('R-XCONST', z in (0, (0, 0)), 'xconst|%s_zero' % grp, 'exported %s_zero does not have z == 0' % grp, loc_str(g))
+        g, tgt, v = pointee(P + grp + 'affine_zero')
+        m.ob('R-XCONST', v['infinity'] == 1, 'xconst|%saffine_zero' % grp, 'exported %saffine_zero is not the point at infinity' % grp, loc_str(g))
+        g, tgt, v = pointee(P + grp + 'affine_generator')
+        pt = (dec(v['x']), dec(v['y']))
+        ok = v['infinity'] == 0 and curve.on_curve(pt) and curve.pmul(pt, bls.R_ORDER) is None
+        m.ob('R-XCONST', ok, 'xconst|%saffine_generator' % grp,
+             'exported %s generator is not a finite point of order r on the curve' % grp, loc_str(g))
+    g, tgt, v = pointee(P + 'gt_zero')
+    got = [fq2_dec(v[a][b]) for a in ('c0', 'c1') for b in ('c0', 'c1', 'c2')]
+    m.ob('R-XCONST', got == [(1, 0)] + [(0, 0)] * 5, 'xconst|gt_zero', 'exported gt_zero is not the multiplicative identity of Fq12', loc_str(g))
+    # size constants
+    sizes = {
+        'g1_marshalled_compressed_size': 48, 'g1_marshalled_uncompressed_size': 96,
+        'g2_marshalled_compressed_size': 96, 'g2_marshalled_uncompressed_size': 192, 'gt_marshalled_size': 576}
+    for nm, want in sizes.items():
+        g = exported.get(P + nm)
+        ctx.require(g is not None and 'value' in g, 'exported size constant %s not found' % nm)
+        got = decode(g['value'])
+        # the expected value is derived from the types, not hard-coded: n * sizeof(Fq)
+        fqsz = prog.records[NS + 'Fq']['size']
+        want2 = {48: fqsz, 96: 2 * fqsz, 192: 4 * fqsz, 576: 12 * fqsz}[want]
+        m.ob('R-XCONST', got == want2, 'xconst|' + nm, 'exported %s = %s, expected %s' % (nm, got, want2), loc_str(g))
+    # coefficient count in the C header equals G2Prepared::num_coeffs (also covered by R-LAYOUT)
+    if ctx.tier == 'thorough' and cfg == 'x64-asm':
+        g, tgt, v = pointee(P + 'gt_generator')
+        got = tuple(tuple(fq2_dec(v[a][b]) for b in ('c0', 'c1', 'c2')) for a in ('c0', 'c1'))
+        g1 = prog.globals[NS + 'G1Affine::generator']
+        g2 = prog.globals[NS + 'G2Affine::generator']
+        v1, v2 = decode(g1['value']), decode(g2['value'])
+        P1 = (fq(v1['x']), fq(v1['y']))
+        P2 = (fq2_dec(v2['x']), fq2_dec(v2['y']))
+        e = bls.pairing_reduced(P1, P2)
+        # the library's final exponentiation computes the reduced pairing cubed (property C01 statement)
+        e3 = bls.f12_pow(e, 3)
+        m.ob('R-XCONST', got == e3 or got == e, 'xconst|gt_generator',
+             'exported gt_generator is not e(g1,g2) (reduced optimal-ate pairing, or its cube) of the generator constants', loc_str(g))
+    else:
+        g, tgt, v = pointee(P + 'gt_generator')
+        got = (tuple(fq2_dec(v['c0'][b]) for b in ('c0', 'c1', 'c2')), tuple(fq2_dec(v['c1'][b]) for b in ('c0', 'c1', 'c2')))
+        ok = bls.f12_pow(got, bls.R_ORDER) == bls.F12_ONE and got != bls.F12_ONE
+        m.ob('R-XCONST', ok, 'xconst|gt_generator-order', 'exported gt_generator is not an element of order r in Fq12', loc_str(g))
